@@ -975,6 +975,62 @@ func (d *driver) tamperRandom(saved map[string][]byte) {
 			}
 		}
 	}
+	// a non-canonical spelling of a genuine edge leaf: an unknown extension (or trailing bytes) spliced into
+	// the CTExtensions of one entry of the right-edge partial data tile, length prefix fixed up. The decoded
+	// entry is the committed one; the bytes are not what the tree commits to.
+	if d.r.Intn(4) == 0 {
+		var edge string
+		for _, c := range keys {
+			if strings.HasPrefix(c, "tile/data/") && strings.Contains(c, ".p/") {
+				if edge == "" || len(c) > len(edge) || (len(c) == len(edge) && c > edge) {
+					edge = c
+				}
+			}
+		}
+		if edge != "" {
+			o := w.objects[edge]
+			raw, _ := gunzip(o.data)
+			var leaves [][]byte
+			for rest := raw; len(rest) > 0; {
+				_, r2, err := sunlight.ReadTileLeaf(rest)
+				if err != nil {
+					leaves = nil
+					break
+				}
+				leaves = append(leaves, bytes.Clone(rest[:len(rest)-len(r2)]))
+				rest = r2
+			}
+			if len(leaves) >= 1 {
+				i := d.r.Intn(len(leaves))
+				b := leaves[i]
+				if extOff, end, ok := rawLeafOffsets(b); ok {
+					extLen := end - extOff - 2
+					extra := []byte{1, 0, 2, 0xAB, 0xCD} // extension type 1, two bytes of data
+					if d.r.Intn(3) == 0 {
+						extra = []byte{0xEE} // a stray trailing byte
+					}
+					nl := extLen + len(extra)
+					nb := append([]byte{}, b[:extOff]...)
+					nb = append(nb, byte(nl>>8), byte(nl))
+					nb = append(nb, b[end-extLen:end]...)
+					nb = append(nb, extra...)
+					nb = append(nb, b[end:]...)
+					leaves[i] = nb
+					newRaw := bytes.Join(leaves, nil)
+					var bb bytes.Buffer
+					zw := gzip.NewWriter(&bb)
+					zw.Write(newRaw)
+					zw.Close()
+					w.objects[edge] = object{data: bb.Bytes(), imm: o.imm}
+					w.logf(nil, "ev|tamper|%s|bytes|%s", edge, hx(newRaw))
+					d.stats["tamper"]++
+					d.stats["tamper-noncanonical-edge-leaf"]++
+					w.mon.tampered = true
+					return
+				}
+			}
+		}
+	}
 	// rearrange the leaves of the right-edge partial data tile: every leaf stays a genuine leaf of
 	// that tile, only not at its own position (one overwritten by its neighbour, or two swapped)
 	if d.r.Intn(5) == 0 {
